@@ -183,7 +183,7 @@ fn exec(c: &Case) -> Vec<String> {
         let r = guarded(exec_inner, &c2);
         let _ = tx.send(r);
     });
-    match rx.recv_timeout(Duration::from_secs(10)) {
+    match rx.recv_timeout(Duration::from_secs(10 * nvh::load_factor() as u64)) {
         Ok(v) => v,
         Err(_) => vec!["blocked".into()],
     }
